@@ -16,7 +16,7 @@ object that existed before the step, and the bytes of its extent, are unchanged.
 from . import model as M, typegen
 from .core import exc_sig, quarantined
 
-KINDS = ["index_oob", "index_oob", "array_shape", "array_shape", "array_dims", "scalar_sequence", "array_nested_deeper", "string_long", "string_long", "items_large", "items_large", "struct_partial", "union_nonmember", "union_nonmember", "ctx_mismatch", "offset_nobuf"]
+KINDS = ["index_oob", "index_oob", "array_shape", "array_shape", "array_dims", "scalar_sequence", "array_nested_deeper", "misfit_at_offset", "string_long", "string_long", "items_large", "items_large", "struct_partial", "union_nonmember", "union_nonmember", "ctx_mismatch", "offset_nobuf"]
 
 
 def gen(gs, w):
@@ -105,7 +105,22 @@ def gen_array_shape(gs, w):
         items.append(v)
     # the misfitting value as plain data, or as an xobject of the same array class (which may
     # happen to have the same byte size although its shape differs)
+    ity = w.schema[ty["item"]]
+    if ity["k"] == "sc" and rng.random() < 0.35:
+        # an ndarray of another shape; sometimes with one more axis whose leading lengths match
+        shp = list(shape) + [rng.choice([2, 3])] if rng.random() < 0.5 and cnt_of(shape) > 0 else new
+        n = cnt_of(shp)
+        if 0 < n <= 120:
+            hexd = "".join(M.gen_scalar(rng, ity["t"])["x"] for _ in range(n))
+            return {"obj": o.k, "path": p, "value": {"nd": {"hex": hexd, "src": ity["t"], "shape": shp, "layout": "C"}}, "via": gs._via(o)}
     return {"obj": o.k, "path": p, "value": {"l": items, "shape": new}, "as_obj": rng.random() < 0.35, "via": gs._via(o)}
+
+
+def cnt_of(shape):
+    n = 1
+    for d in shape:
+        n *= d
+    return n
 
 
 def gen_scalar_sequence(gs, w):
@@ -285,6 +300,30 @@ def gen_ctx_mismatch(gs, w):
     return {"type": t, "value": v, "buf": b, "ctx": rng.choice(["default"] + list(range(len(w.ctxs))))}
 
 
+def gen_misfit_at_offset(gs, w):
+    """A value that one of the type's static array fields cannot take (one item too many),
+    constructed at an explicit offset inside a region that is in use: it must be refused and must not
+    hand the region back to the allocator."""
+    rng = gs.rng
+    cands = []
+    for t, ty in enumerate(w.schema):
+        if ty["k"] == "struct" and not typegen.has_refs(w.schema, t) and typegen.leaf_count(w.schema, t, 2) <= 60:
+            for f in ty["fields"]:
+                fty = w.schema[f[1]]
+                if fty["k"] == "array" and len(fty["shape"]) == 1 and fty["shape"][0] not in (None,) and w.schema[fty["item"]]["k"] == "sc":
+                    cands.append((t, f[0], f[1]))
+    live_regions = [i for i, r in enumerate(w.regions) if r is not None and r[2] >= 64]
+    if not cands or not live_regions:
+        return None
+    t, fname, ft = rng.choice(cands)
+    v = _plain(gs, w, t)
+    if v is None or "d" not in v:
+        return None
+    n = w.schema[ft]["shape"][0] + 1
+    v["d"][fname] = {"l": [M.gen_scalar(rng, w.schema[w.schema[ft]["item"]]["t"]) for _ in range(n)], "shape": [n]}
+    return {"type": t, "value": v, "region": rng.choice(live_regions), "bad_field": fname}
+
+
 def gen_offset_nobuf(gs, w):
     rng = gs.rng
     tops = [t for t in gs.top_types(w) if w.schema[t]["k"] != "str"]
@@ -311,7 +350,29 @@ def run(step):
     raised = None
     feat = "-"
     try:
-        if kind in ("ctx_mismatch", "offset_nobuf"):
+        if kind == "misfit_at_offset":
+            t = op["type"]
+            if t >= len(w.schema) or op["region"] >= len(w.regions) or w.regions[op["region"]] is None:
+                raise Skip()
+            cls = w.classes[t]
+            buf, roff, rsize = w.regions[op["region"]]
+            py, _ = M.Materialiser(w.schema, w.classes, w.objs, None).mat(t, op["value"])
+            feat = typegen.features(w.schema, t)
+            # the object (with the misfitting field cut to its length) must fit the region: measure it
+            try:
+                ok = dict(py)
+                ok[op["bad_field"]] = list(ok[op["bad_field"]])[:-1]
+                need = int(cls(ok, _context=xo.ContextCpu())._size)
+            except Exception:
+                raise Skip()
+            if need + 16 > rsize:
+                raise Skip()
+            free_before = (buf.get_free(), buf.capacity)
+            call = lambda: cls(py, _buffer=buf, _offset=roff)
+            step.after_misuse = lambda: (buf.get_free(), buf.capacity) == free_before or step.viol("C11", "refused_operation_changed_allocator_state", [kind], f"free bytes / capacity {free_before} -> {(buf.get_free(), buf.capacity)} after a refused construction at an explicit offset {roff} (the region is in use)")
+            # the region is the harness's own: bytes inside it may be written before the refusal
+            step.allowed.append((buf, roff, roff + rsize))
+        elif kind in ("ctx_mismatch", "offset_nobuf"):
             t = op["type"]
             if t >= len(w.schema):
                 raise Skip()
@@ -485,3 +546,5 @@ def run(step):
         step.viol("C11", "misuse_accepted", [kind, feat] + ([op["mode"]] if "mode" in op else []), f"no exception for {str(op)[:400]}")
     else:
         step.outcome = "raised:" + type(raised).__name__
+        if getattr(step, "after_misuse", None):
+            step.after_misuse()
